@@ -1,13 +1,4 @@
-//! vx: one binary, one sub-command per property.  Invoked by /verif/bin/check.
-//!
-//!   vx <PROP> --tier quick|thorough --shard i/n --out report.json
-//!             [--seed N] [--wall SECS] [--only space[,space]] [--breadcrumb FILE]
-//!             [--profile NAME] [--replay case.json]
-
-use std::time::Duration;
-
-use serde_json::Value;
-use vx_core::{Ctx, Report, Tier};
+//! vx: checkers for the core library properties.  Invoked by /verif/bin/check.
 
 mod cfgs;
 mod model;
@@ -17,104 +8,27 @@ mod c04;
 mod c05;
 mod c19;
 
-fn usage() -> ! {
-    eprintln!("usage: vx <PROP> --tier quick|thorough --shard i/n --out FILE [--seed N] [--wall SECS] [--only S] [--breadcrumb F] [--profile P] [--replay FILE]");
-    std::process::exit(2);
-}
-
 fn main() {
-    let args: Vec<String> = std::env::args().collect();
-    if args.len() < 2 {
-        usage();
-    }
-    let prop = args[1].clone();
-    let mut tier = Tier::Quick;
-    let mut shard = (0usize, 1usize);
-    let mut out: Option<String> = None;
-    let mut seed = 0u64;
-    let mut wall = 3600u64;
-    let mut only = None;
-    let mut breadcrumb = None;
-    let mut profile = "rel".to_string();
-    let mut replay: Option<String> = None;
-    let mut i = 2;
-    while i < args.len() {
-        let a = args[i].as_str();
-        let mut val = || {
-            i += 1;
-            args.get(i).cloned().unwrap_or_else(|| usage())
-        };
-        match a {
-            "--tier" => {
-                tier = match val().as_str() {
-                    "quick" => Tier::Quick,
-                    "thorough" => Tier::Thorough,
-                    _ => usage(),
-                }
+    vx_core::cli::main(
+        |prop, ctx, rep| {
+            match prop {
+                "C01" => c01::run(ctx, rep),
+                "C04" => c04::run(ctx, rep),
+                "C05" => c05::run(ctx, rep),
+                "C19" => c19::run(ctx, rep),
+                _ => return false,
             }
-            "--shard" => {
-                let v = val();
-                let (a, b) = v.split_once('/').unwrap_or_else(|| usage());
-                shard = (a.parse().unwrap(), b.parse().unwrap());
+            true
+        },
+        |prop, ctx, rep, case| {
+            match prop {
+                "C01" => c01::replay(ctx, rep, case),
+                "C04" => c04::replay(ctx, rep, case),
+                "C05" => c05::replay(ctx, rep, case),
+                "C19" => c19::replay(ctx, rep, case),
+                _ => return false,
             }
-            "--out" => out = Some(val()),
-            "--seed" => seed = val().parse().unwrap_or(0),
-            "--wall" => wall = val().parse().unwrap(),
-            "--only" => only = Some(val()),
-            "--breadcrumb" => breadcrumb = Some(std::path::PathBuf::from(val())),
-            "--profile" => profile = val(),
-            "--replay" => replay = Some(val()),
-            _ => usage(),
-        }
-        i += 1;
-    }
-
-    vx_core::util::install_panic_hook();
-    let mut ctx = Ctx::new(tier, shard.0, shard.1, seed, Duration::from_secs(wall));
-    ctx.only = only;
-    ctx.breadcrumb = breadcrumb;
-    ctx.profile = profile;
-    let mut rep = Report::new(&prop);
-
-    if let Some(path) = replay {
-        let text = std::fs::read_to_string(&path).expect("cannot read replay file");
-        let v: Value = serde_json::from_str(&text).expect("replay file is not JSON");
-        let case = v.get("case").cloned().unwrap_or(v);
-        dispatch_replay(&prop, &mut ctx, &mut rep, &case);
-    } else {
-        dispatch(&prop, &mut ctx, &mut rep);
-    }
-
-    let js = rep.to_json(ctx.capped);
-    let text = serde_json::to_string(&js).unwrap();
-    match out {
-        Some(p) => std::fs::write(p, text).expect("cannot write report"),
-        None => println!("{}", text),
-    }
-}
-
-fn dispatch(prop: &str, ctx: &mut Ctx, rep: &mut Report) {
-    match prop {
-        "C01" => c01::run(ctx, rep),
-        "C04" => c04::run(ctx, rep),
-        "C05" => c05::run(ctx, rep),
-        "C19" => c19::run(ctx, rep),
-        _ => {
-            eprintln!("unknown property {}", prop);
-            std::process::exit(2);
-        }
-    }
-}
-
-fn dispatch_replay(prop: &str, ctx: &mut Ctx, rep: &mut Report, case: &Value) {
-    match prop {
-        "C01" => c01::replay(ctx, rep, case),
-        "C04" => c04::replay(ctx, rep, case),
-        "C05" => c05::replay(ctx, rep, case),
-        "C19" => c19::replay(ctx, rep, case),
-        _ => {
-            eprintln!("unknown property {}", prop);
-            std::process::exit(2);
-        }
-    }
+            true
+        },
+    );
 }
